@@ -134,8 +134,13 @@ def parseConst (cb : Json) : Kind :=
         | none => none))
     .const m
 
-def parseControlled (cb : Json) : Kind :=
-  if (jbool? cb "circuit_enabled").getD false then
+/-- Pumps and power switches have no `circuit_enabled` flag in the 2.0 format: a circuit condition,
+when present, always applies. -/
+def alwaysConditional (name : String) : Bool :=
+  name == "pump" || name == "offshore-pump" || name == "power-switch"
+
+def parseControlled (name : String) (cb : Json) : Kind :=
+  if (jbool? cb "circuit_enabled").getD (alwaysConditional name && (jget? cb "circuit_condition").isSome) then
     match jget? cb "circuit_condition" with
     | some cc =>
       match parseCond cc with
@@ -157,7 +162,7 @@ def parseEntity (j : Json) : Except String BpEntity := do
     else if name == "decider-combinator" then parseDecider cb
     else if name == "selector-combinator" then .unsupported "selector combinator"
     else if isPoleName name then .pole
-    else parseControlled cb
+    else parseControlled name cb
   return { number, name, x2, y2, direction := (jnat? j "direction").getD 0, kind,
            description := (jstr? j "player_description").getD "", raw := j }
 
